@@ -484,6 +484,23 @@ Definition s_to := Eval vm_compute in lit "to ".
 Definition s_circle := Eval vm_compute in lit "circle".
 Definition s_ellipse := Eval vm_compute in lit "ellipse".
 
+(* ColorStopPositionRegex of the repaired code: ^[+-]?([0-9]+\.?[0-9]*|\.[0-9]+)%?$ *)
+Fixpoint span_digits (s : str) : str * str :=
+  match s with
+  | c :: r => if is_digit c then let '(d, t) := span_digits r in (c :: d, t) else ([], s)
+  | [] => ([], [])
+  end.
+Definition stop_position_ok (p : str) : bool :=
+  let p1 := match p with c :: r => if (c =? 43) || (c =? 45) then r else p | [] => [] end in
+  let p2 := match split_last p1 with Some (m, 37) => m | _ => p1 end in
+  let '(d1, rest) := span_digits p2 in
+  match d1, rest with
+  | _ :: _, [] => true
+  | _ :: _, 46 :: d2 => forallb is_digit d2
+  | [], 46 :: d2 => nonempty_s d2 && forallb is_digit d2
+  | _, _ => false
+  end.
+
 Section Color.
   Variable gid : str -> str.          (* color.UniqueGradientID *)
   Variable css_ok : str -> bool.      (* csscolorparser.Parse returned no error *)
@@ -515,6 +532,16 @@ Section Color.
       match parse_gradient c with
       | None => false
       | Some g => forallb (fun s => css_ok (st_color s)) (g_stops g)
+      end
+    else existsb (str_eqb (map lower_a c)) named_colors || hex_color c.
+
+  (* ValidColor of the repaired code (coq/C30/fix.patch): a stop position must be a number or a percentage *)
+  Definition valid_color_fixed (c : str) : bool :=
+    if is_gradient c then
+      match parse_gradient c with
+      | None => false
+      | Some g => forallb (fun s => css_ok (st_color s)
+                                    && (negb (nonempty_s (st_pos s)) || stop_position_ok (st_pos s))) (g_stops g)
       end
     else existsb (str_eqb (map lower_a c)) named_colors || hex_color c.
 
